@@ -25,8 +25,8 @@ import (
 // module replaced by stubs (the module signs whatever stream it is given and
 // answers with a binary patch or a whole-file replacement). For a file with
 // symbolic content, in-place or to another path, already "signed" or not,
-// with and without --if-unsigned, signing and the audit sink each allowed to
-// fail: the module is handed exactly the file's bytes; on success the output
+// with and without --if-unsigned, with and without a post-signing fixup step,
+// signing, fixup and the audit sink each allowed to fail: the module is handed exactly the file's bytes; on success the output
 // holds exactly what the module's answer prescribes, and exactly one audit
 // record was published, after the output was in place; if the audit sink
 // fails the command fails; a signing failure publishes nothing and leaves
@@ -78,6 +78,18 @@ func VH_C06_StandaloneSignAudit() {
 		}
 		return nil, vhNotSigned()
 	}
+	fixups := 0
+	fixupFails := false
+	if vhBool("module-has-a-fixup-step") {
+		fixupFails = vhBool("fixup-fails")
+		mod.Fixup = func(f *os.File) error {
+			fixups++
+			if fixupFails {
+				return errors.New("checksum fixup failed")
+			}
+			return nil
+		}
+	}
 	vhStub("github.com/sassoftware/relic/v8/signers.ByFile", func(name, sigtype string) (*signers.Signer, error) { return mod, nil })
 	vhStub("(*github.com/sassoftware/relic/v8/signers.Signer).FlagsFromCmdline", func(s *signers.Signer, fs *pflag.FlagSet) (*signers.FlagValues, error) {
 		return nil, nil
@@ -120,7 +132,10 @@ func VH_C06_StandaloneSignAudit() {
 	case signFails:
 		vhAssert(err != nil && published == 0, "failed-signing-publishes-nothing")
 		vhAssert(bytes.Equal(orig, data), "failed-signing-leaves-the-input")
+	case fixupFails:
+		vhAssert(err != nil && published == 0 && fixups == 1, "failed-fixup-fails-the-command-before-the-audit")
 	default:
+		vhAssert(mod.Fixup == nil || fixups == 1, "fixup-step-runs-once-on-the-output")
 		vhAssert(signCalls == 1 && bytes.Equal(signedOver, data), "module-is-handed-exactly-the-file")
 		vhAssert(published == 1 && outputAtPublish, "one-audit-record-after-the-output-is-in-place")
 		vhAssert((err != nil) == auditFails, "audit-sink-failure-fails-the-command")
